@@ -49,6 +49,36 @@ CHECKS = {
    "Cooperative programs (every reader reads and releases, every sender sends what it is assigned, connections driven by their own tasks) are run under generated schedules, chunkings, windows ≥ 1, limits ≥ 1 and mid-connection window changes. At quiescence (nothing runnable, nothing in flight) every application task must have finished. A stalled case is re-polled generously: completing then proves a lost wake-up; stalling still is an accounting stall.",
    "Bounded liveness only (deadlock/lost-wakeup freedom per generated program and schedule), not fairness over unbounded time.",
    "DESIGN.md §3 C06"),
+ "C05": ("sim-pair", "exploration",
+   "property-based testing: generated exchanges with small limits and every close path; oracle = slot accounting over the tapped wire (open-on-the-wire count vs acknowledged limit) and over the API log (streams surfaced concurrently; refusals only when slots may be taken)",
+   "For every HEADERS that opens a client stream the number of earlier own streams not yet closed as far as the client can know must be below the limit in the last SETTINGS it acknowledged; the server never hands more concurrently active streams to accept() than it advertised, never surfaces a stream it refused, and refuses only when as many earlier streams may still be open; generated limits 1,2,3,5,100, resets, drops, early response-future drops while queued.",
+   "Send-side limit changes mid-connection need the RAW client engine (limit lowered by the peer); covered there once built.",
+   "DESIGN.md §3 C05"),
+ "C07": ("sim-pair", "fault_enumeration",
+   "property-based fault injection: generated exchanges × one generated ending (EOF, read error, write error, write-zero at a generated byte offset of either direction or on the idle connection; graceful/abrupt shutdown; dropping either connection object) on the deterministic simulator; oracle = nothing pending at quiescence, connection futures completed",
+   "After the generated ending every application task (response futures, body/trailer reads, capacity waits, readiness, accept, push promises, pings) must have resolved when nothing is runnable any more, and both connection futures must have completed (unless that object was the one dropped). A pending task is re-polled to classify lost wake-ups.",
+   "Programs are cooperative (no send half dropped while its side keeps reading) so that a hang is the library's. Fault offsets are sampled, not enumerated, in the quick tier.",
+   "DESIGN.md §3 C07"),
+ "C08": ("sim-raw", "exploration",
+   "property-based testing / fuzzing: h2 server against a scripted reference peer injecting the RFC violation catalogue after generated prefixes, under generated read chunking; oracle = no panic in any task, no self-waking connection task, the endpoint's own output stays legal",
+   "Every run of every SIM engine reports panics (with location), poisoned locks and a connection task that keeps waking itself without progress as C08 violations; this check drives the h2 server with the catalogue of illegal and unusual frames in generated stream states and read chunkings.",
+   "Byte-level mutation/random-soup generators and the libFuzzer targets are added in the thorough tier (see DESIGN.md).",
+   "DESIGN.md §3 C08"),
+ "C09": ("sim-raw", "exploration",
+   "property-based testing: (generated legal prefix reaching a stream state) × (one item of an RFC 9113 violation / legal-but-unusual catalogue) × probe request; oracle = required reaction class per catalogue row (connection error / at least stream error / tolerated), containment (nothing surfaced, other streams keep working)",
+   "78 catalogue rows, each carrying the RFC sentence it encodes, are injected into an h2 server whose target stream was driven into one of five states; afterwards a PING barrier and a probe request decide: connection errors need GOAWAY(code≠0) and an ended connection, stream errors need at least RST_STREAM on that stream with the probe still served, legal-but-unusual items need no error at all and a served probe. Only the class of reaction is demanded, never a code.",
+   "Catalogue rows transcribed from RFC 9113 by hand (audit: harness/src/eng_raw.rs). Client-side catalogue (push/response items) is a separate engine.",
+   "DESIGN.md §3 C09, App. A"),
+ "C17": ("sim-pair", "exploration",
+   "property-based testing: generated exchanges with send_reset(code∈u32)/handle drops at every position; oracle = RST_STREAM count/code/order per stream on the tapped wire against the API log, and error-info comparison (reason, remote/library/user, reset/go-away) on every handle",
+   "Per stream and endpoint: the n-th RST_STREAM needs n−1 late peer frames (n when the first was not application-caused); RST after HEADERS on own streams; the first code equals the caller's code, CANCEL for an implicit cancel, NO_ERROR only from a server whose response was complete; an explicit send_reset on an unfinished open stream of a live connection must reach the wire; every error a handle reports as remote carries a code the peer really sent.",
+   "Codes are generated over the full u32 range (3/4 biased to the 14 registered codes).",
+   "DESIGN.md §3 C17"),
+ "C19": ("sim-pair", "exploration",
+   "property-based testing: generated exchanges where every stream ends by some path and every handle is dropped; oracle = read-only statistics probe (guarded hook) at quiescence of the live connection against the a-priori idle values, wire/API check of the idle client close",
+   "At quiescence of a live connection with all application tasks finished the store holds only remembered local resets (≤ quota), no orphan records, empty send buffer, zero concurrency counters, zero in-flight receive bytes, fully unassigned connection send capacity; `dangling store key` panics are attributed here; a client whose last SendRequest and stream are gone must send GOAWAY(NO_ERROR), shut the transport down and return Ok(()).",
+   "Two known findings (push-related leaks) and one record leak are listed in known_findings.json by signature.",
+   "DESIGN.md §3 C19"),
 }
 
 NOT_YET = "check not built yet in this round (machinery in progress; see DESIGN.md §5 build order)"
@@ -86,7 +116,8 @@ def main():
         "engines": [
             {"name": "hpack-enc", "path": "harness/src/eng_hpack.rs", "serves_properties": ["C10"], "kind_free_text": "proptest-driven generated histories through h2's Codec write side; strict reference HPACK decoder as oracle"},
             {"name": "codec", "path": "harness/src/eng_codec.rs", "serves_properties": ["C12"], "kind_free_text": "h2 Codec as Sink/Stream over a scripted transport vs refmodel::wire"},
-            {"name": "sim-pair", "path": "harness/src/{sim,sim_pair,eng_pair,oracles,tapx}.rs", "serves_properties": ["C01", "C02", "C04", "C06"], "kind_free_text": "deterministic simulator: h2 client and server on a waker-faithful single-thread executor over a scripted transport with an independent tap; proptest-generated programs/schedules/chunkings"},
+            {"name": "sim-pair", "path": "harness/src/{sim,sim_pair,eng_pair,oracles,tapx}.rs", "serves_properties": ["C01", "C02", "C04", "C05", "C06", "C07", "C17", "C19"], "kind_free_text": "deterministic simulator: h2 client and server on a waker-faithful single-thread executor over a scripted transport with an independent tap; proptest-generated programs/schedules/chunkings"},
+            {"name": "sim-raw", "path": "harness/src/{sim_raw,eng_raw}.rs", "serves_properties": ["C08", "C09"], "kind_free_text": "h2 endpoint against a scripted frame-level reference peer (cooperative core + generated deviation script) on the deterministic simulator"},
             {"name": "hpack-dec", "path": "harness/src/eng_hpack.rs", "serves_properties": ["C11"], "kind_free_text": "differential h2 decoder vs RFC 7541 reference on generated/mutated/hostile blocks; whole-vs-split through Codec; exhaustive Huffman/integer sub-spaces"},
         ],
         "checks": checks,
